@@ -6,179 +6,7 @@ global size_of usize == 8;
 //@ item layout21tetris/src/coords.rs :: type Int
 //@ end
 
-// =====================================================================================================
-// MODELS of external code (rule R5)
-// =====================================================================================================
-#[derive(Debug)]
-pub struct LayoutError { }
-pub type LayoutResult<T> = Result<T, LayoutError>;
-impl LayoutError {
-    /// model of LayoutError::fail: always an error
-    #[verifier::external_body]
-    pub fn fail<T, M>(msg: M) -> (r: Result<T, LayoutError>) ensures r is Err { Err(LayoutError { }) }
-}
-/// model of layout21utils::Ptr<T> = Arc<RwLock<T>>: `read()` yields the pointee (or a lock-poison error); uncontended
-pub struct Ptr<T> { pub v: Box<T> }
-impl<T> Ptr<T> {
-    #[verifier::external_body]
-    pub fn read(&self) -> (r: LayoutResult<&T>) ensures r is Ok ==> *r->Ok_0 == *self.v { Ok(&*self.v) }
-}
-// model of #[derive(PartialEq)] on the two field-less enums and on PrimPitches (Verus gives derived comparisons no meaning)
-//@ item layout21raw/src/geom.rs :: enum Dir
-//@   derive Debug, Clone, Copy
-//@ end
-impl vstd::std_specs::cmp::PartialEqSpecImpl for Dir {
-    open spec fn obeys_eq_spec() -> bool { true }
-    open spec fn eq_spec(&self, other: &Self) -> bool { *self == *other }
-}
-impl PartialEq for Dir { fn eq(&self, other: &Self) -> bool { match (self, other) { (Dir::Horiz, Dir::Horiz) => true, (Dir::Vert, Dir::Vert) => true, _ => false } } }
-impl Dir {
-//@ fn layout21raw/src/geom.rs :: impl Dir :: fn other
-//@   ret r
-//@   spec
-//|     ensures r == (match self { Dir::Horiz => Dir::Vert, Dir::Vert => Dir::Horiz }),
-//@ end
-}
-
-// =====================================================================================================
-// layout21tetris coordinates, boxes, placements (extracted)
-// =====================================================================================================
-//@ item layout21tetris/src/coords.rs :: struct PrimPitches
-//@   derive Debug, Clone, Copy
-//@ end
-//@ item layout21tetris/src/coords.rs :: struct DbUnits
-//@   derive Debug, Clone, Copy
-//@ end
-//@ item layout21tetris/src/coords.rs :: struct LayerPitches
-//@   derive Debug, Clone, Copy
-//@ end
-//@ item layout21tetris/src/coords.rs :: enum UnitSpeced
-//@   derive Debug, Clone, Copy
-//@ end
-//@ item layout21tetris/src/coords.rs :: trait HasUnits
-//@ end
-impl HasUnits for PrimPitches {
-//@ fn layout21tetris/src/coords.rs :: impl HasUnits for PrimPitches :: fn raw
-//@ end
-}
-impl PrimPitches {
-//@ fn layout21tetris/src/coords.rs :: impl PrimPitches :: fn new
-//@   ret r
-//@   spec
-//|     ensures r.dir == dir, r.num == num,
-//@ end
-//@ fn layout21tetris/src/coords.rs :: impl PrimPitches :: fn negate
-//@   ret r
-//@   spec
-//|     requires self.num > isize::MIN,
-//|     ensures r.dir == self.dir, r.num == -self.num,
-//@ end
-}
-// R8: operator contracts are given through vstd's AddSpecImpl / SubSpecImpl (the trait's own `requires` cannot be edited)
-impl vstd::std_specs::ops::AddSpecImpl<PrimPitches> for PrimPitches {
-    open spec fn obeys_add_spec() -> bool { true }
-    // adding pitches of different directions panics in the real code: same direction is a precondition
-    open spec fn add_req(self, rhs: PrimPitches) -> bool { self.dir == rhs.dir && isize::MIN <= self.num + rhs.num <= isize::MAX }
-    open spec fn add_spec(self, rhs: PrimPitches) -> PrimPitches { PrimPitches { dir: self.dir, num: (self.num + rhs.num) as isize } }
-}
-impl std::ops::Add<PrimPitches> for PrimPitches {
-    type Output = PrimPitches;
-//@ fn layout21tetris/src/coords.rs :: impl std::ops::Add<PrimPitches> for PrimPitches :: fn add
-//@ end
-}
-impl vstd::std_specs::ops::SubSpecImpl<PrimPitches> for PrimPitches {
-    open spec fn obeys_sub_spec() -> bool { true }
-    open spec fn sub_req(self, rhs: PrimPitches) -> bool { self.dir == rhs.dir && isize::MIN <= self.num - rhs.num <= isize::MAX }
-    open spec fn sub_spec(self, rhs: PrimPitches) -> PrimPitches { PrimPitches { dir: self.dir, num: (self.num - rhs.num) as isize } }
-}
-impl std::ops::Sub<PrimPitches> for PrimPitches {
-    type Output = PrimPitches;
-//@ fn layout21tetris/src/coords.rs :: impl std::ops::Sub<PrimPitches> for PrimPitches :: fn sub
-//@ end
-}
-//@ item layout21tetris/src/coords.rs :: struct Xy
-//@   derive Debug, Clone, Copy
-//@ end
-impl<T> Xy<T> {
-//@ fn layout21tetris/src/coords.rs :: impl<T> Xy<T> :: fn new
-//@   ret r
-//@   spec
-//|     ensures r.x == x, r.y == y,
-//@ end
-}
-// R8: indexing by direction is total
-impl<T: HasUnits> vstd::std_specs::core::IndexSpecImpl<Dir> for Xy<T> { open spec fn index_req(&self, index: &Dir) -> bool { true } }
-impl<T: HasUnits> std::ops::Index<Dir> for Xy<T> {
-    type Output = T;
-//@ fn layout21tetris/src/coords.rs :: impl<T: HasUnits> std::ops::Index<Dir> for Xy<T> :: fn index
-//@   ret r
-//@   spec
-//|     ensures *r == (match dir { Dir::Horiz => self.x, Dir::Vert => self.y }),
-//@ end
-}
-//@ item layout21tetris/src/placement.rs :: enum Side
-//@   derive Debug, Clone, Copy
-//@ end
-//@ item layout21tetris/src/bbox.rs :: struct BoundBox
-//@ end
-impl<T: HasUnits> BoundBox<T> {
-//@ fn layout21tetris/src/bbox.rs :: impl<T: HasUnits> BoundBox<T> :: fn new
-//@   ret r
-//@   spec
-//|     ensures r.p0 == p0, r.p1 == p1,
-//@ end
-//@ fn layout21tetris/src/bbox.rs :: impl<T: HasUnits> BoundBox<T> :: fn side
-//@   ret r
-//@   spec
-//|     ensures r == (match side { Side::Left => self.p0.x, Side::Right => self.p1.x, Side::Bottom => self.p0.y, Side::Top => self.p1.y }),
-//@ end
-}
-//@ item layout21tetris/src/outline.rs :: struct Outline
-//@ end
-
-// ---- SPEC: a valid outline (C19): same number (>= 1) of x and y steps, right directions, non-negative, x non-increasing, y non-decreasing
-pub open spec fn outline_valid(x: Seq<PrimPitches>, y: Seq<PrimPitches>) -> bool {
-    &&& x.len() >= 1 &&& x.len() == y.len()
-    &&& forall|k: int| 0 <= k < x.len() ==> (#[trigger] x[k]).dir == Dir::Horiz && x[k].num >= 0
-    &&& forall|k: int| 0 <= k < y.len() ==> (#[trigger] y[k]).dir == Dir::Vert && y[k].num >= 0
-    &&& forall|k: int| 1 <= k < x.len() ==> #[trigger] step_ok(x, y, k)
-}
-/// step k of the staircase: x does not increase, y does not decrease
-pub open spec fn step_ok(x: Seq<PrimPitches>, y: Seq<PrimPitches>, k: int) -> bool { x[k].num <= x[k - 1].num && y[k].num >= y[k - 1].num }
-pub open spec fn outline_wf(o: Outline) -> bool { outline_valid(o.x@, o.y@) }
-impl Outline {
-//@ fn layout21tetris/src/outline.rs :: impl Outline :: fn from_prim_pitches
-//@   ret r
-//@   spec
-//|     ensures r is Ok <==> outline_valid(x@, y@),
-//|         r is Ok ==> r->Ok_0.x@ == x@ && r->Ok_0.y@ == y@,
-//@   loop 1
-//|             invariant x.len() >= 1, x.len() == y.len(),
-//|                 forall|j: int| 0 <= j < k ==> (#[trigger] x@[j]).dir == Dir::Horiz && x@[j].num >= 0,
-//|                 forall|j: int| 0 <= j < k ==> (#[trigger] y@[j]).dir == Dir::Vert && y@[j].num >= 0,
-//@   loop 2
-//|             invariant x.len() >= 1, x.len() == y.len(),
-//|                 forall|j: int| 0 <= j < x.len() ==> (#[trigger] x@[j]).dir == Dir::Horiz && x@[j].num >= 0,
-//|                 forall|j: int| 0 <= j < y.len() ==> (#[trigger] y@[j]).dir == Dir::Vert && y@[j].num >= 0,
-//|                 forall|j: int| 1 <= j < k ==> #[trigger] step_ok(x@, y@, j),
-//@   before /if x\[k\]\.num > x\[k - 1\]\.num/
-//|             proof { if !step_ok(x@, y@, k as int) { assert(!outline_valid(x@, y@)); } }
-//@   loopend 2
-//|             proof { assert(step_ok(x@, y@, k as int)); }
-//@ end
-//@ fn layout21tetris/src/outline.rs :: impl Outline :: fn xmax
-//@   ret r
-//@   spec
-//|     requires self.x@.len() >= 1,
-//|     ensures r == self.x@[0],
-//@ end
-//@ fn layout21tetris/src/outline.rs :: impl Outline :: fn ymax
-//@   ret r
-//@   spec
-//|     requires self.y@.len() >= 1,
-//|     ensures r == self.y@[self.y@.len() - 1],
-//@ end
-}
+//@ include units/tetris_place/coords.inc.rs
 
 // =====================================================================================================
 // cells, instances, relative placements (extracted; views reduced to what placement reads, rule R5)
